@@ -1,6 +1,9 @@
 package symterp
 
-import "fmt"
+import (
+	"fmt"
+	"go/token"
+)
 
 // sync.Map model: an association list per Map value (keys compared with Go interface
 // equality). Lives on the Explorer, keyed by the address of the sync.Map, re-created per path.
@@ -106,3 +109,122 @@ func init() {
 	}
 	externals["(*sync.Mutex).TryLock"] = func(fr *frame, a []value) value { return true }
 }
+
+// sync/atomic typed values (atomic.Pointer[T], atomic.Int32/64, atomic.Bool, atomic.Value):
+// single-threaded execution, so they are plain cells. The value lives in the struct's last
+// field slot (the only non-noCopy field) — we key by the address of the atomic object instead
+// and keep the payload on the Explorer (per path).
+func (e *Explorer) atomOf(p *value) *value {
+	if e.atoms == nil {
+		e.atoms = map[*value]*value{}
+	}
+	c := e.atoms[p]
+	if c == nil {
+		var v value
+		c = &v
+		e.atoms[p] = c
+	}
+	return c
+}
+
+func init() {
+	load := func(zeroV value) externalFn {
+		return func(fr *frame, a []value) value {
+			c := cur.atomOf(a[0].(*value))
+			if *c == nil {
+				return zeroV
+			}
+			return *c
+		}
+	}
+	store := func(fr *frame, a []value) value {
+		p := a[0].(*value)
+		if cur.freezeOn && cur.frozen[p] {
+			// synchronised shared state: beyond the W/O reduction
+			cur.noteInconclusive("C08: store through sync/atomic into state shared between executions (synchronised; not decided by the reduction)")
+		}
+		*cur.atomOf(p) = a[1]
+		return nil
+	}
+	for _, t := range []string{"Int32", "Int64", "Uint32", "Uint64"} {
+		var z value
+		switch t {
+		case "Int32":
+			z = int32(0)
+		case "Int64":
+			z = int64(0)
+		case "Uint32":
+			z = uint32(0)
+		case "Uint64":
+			z = uint64(0)
+		}
+		externals["(*sync/atomic."+t+").Load"] = load(z)
+		externals["(*sync/atomic."+t+").Store"] = store
+		zz := z
+		externals["(*sync/atomic."+t+").Add"] = func(fr *frame, a []value) value {
+			c := cur.atomOf(a[0].(*value))
+			if *c == nil {
+				*c = zz
+			}
+			*c = binop(token.ADD, nil, *c, a[1])
+			return *c
+		}
+	}
+	externals["(*sync/atomic.Bool).Load"] = load(false)
+	externals["(*sync/atomic.Bool).Store"] = store
+	externals["(*sync/atomic.Value).Load"] = load(iface{})
+	externals["(*sync/atomic.Value).Store"] = store
+}
+
+// atomic.Pointer[T] is generic: its methods are instantiated per T, so they are matched by prefix
+func atomicPointerExternal(name string) externalFn {
+	const pre = "(*sync/atomic.Pointer["
+	if len(name) < len(pre) || name[:len(pre)] != pre {
+		return nil
+	}
+	switch {
+	case hasSuffix(name, ".Load"):
+		return func(fr *frame, a []value) value {
+			c := cur.atomOf(a[0].(*value))
+			if *c == nil {
+				return (*value)(nil)
+			}
+			return *c
+		}
+	case hasSuffix(name, ".Store"):
+		return func(fr *frame, a []value) value {
+			p := a[0].(*value)
+			if cur.freezeOn && cur.frozen[p] {
+				cur.noteInconclusive("C08: store through sync/atomic into state shared between executions (synchronised; not decided by the reduction)")
+			}
+			*cur.atomOf(p) = a[1]
+			return nil
+		}
+	case hasSuffix(name, ".CompareAndSwap"):
+		return func(fr *frame, a []value) value {
+			c := cur.atomOf(a[0].(*value))
+			curV := *c
+			if curV == nil {
+				curV = (*value)(nil)
+			}
+			if curV == a[1] {
+				*c = a[2]
+				return true
+			}
+			return false
+		}
+	case hasSuffix(name, ".Swap"):
+		return func(fr *frame, a []value) value {
+			c := cur.atomOf(a[0].(*value))
+			old := *c
+			if old == nil {
+				old = (*value)(nil)
+			}
+			*c = a[1]
+			return old
+		}
+	}
+	return nil
+}
+
+func hasSuffix(s, suf string) bool { return len(s) >= len(suf) && s[len(s)-len(suf):] == suf }
